@@ -1,0 +1,24 @@
+//go:build verif
+
+package vhost
+
+import "sort"
+
+// VerifDump lists the registered routes as "domain|location|user" (verification tooling only).
+func (r *Routers) VerifDump() []string {
+	r.mutex.RLock()
+	defer r.mutex.RUnlock()
+	out := []string{}
+	for d, byUser := range r.indexByDomain {
+		for u, vrs := range byUser {
+			for _, vr := range vrs {
+				out = append(out, d+"|"+vr.location+"|"+u)
+			}
+		}
+	}
+	sort.Strings(out)
+	return out
+}
+
+// VerifRoutes lists the routes of a muxer (verification tooling only).
+func (v *Muxer) VerifRoutes() []string { return v.registryRouter.VerifDump() }
